@@ -81,6 +81,12 @@
 #define T_ENV 3     /* n=${%e}  */
 #define T_CMD 4     /* n=${!c}  */
 
+#if VF_MODE >= 4
+#define HP "C20."
+#else
+#define HP "C17."
+#endif
+
 struct vf_input {
     unsigned sel; /* which member of the family */
 };
@@ -218,12 +224,15 @@ static int vf_vfmt(char *out, size_t size, const char *fmt, va_list ap) {
     if (size > 0) out[n < size ? n : size - 1] = 0;
     return (int)n;
 }
-static int vf_sprintf(char *out, const char *fmt, ...) {
-    va_list ap;
-    va_start(ap, fmt);
-    int r = vf_vfmt(out, (size_t)-1, fmt, ap);
-    va_end(ap);
-    return r;
+/* the only sprintf of the code under test is sprintf(buf, "%c%s", sepchar, section); non-variadic model
+ * (an int read back through va_arg does not constant-fold in CBMC 6.11, a pointer does) */
+static int vf_sprintf_cs(char *out, const char *fmt, int c, const char *s) {
+    __CPROVER_assert(fmt[0] == '%' && fmt[1] == 'c' && fmt[2] == '%' && fmt[3] == 's' && fmt[4] == 0, "vf_model: sprintf format outside the model");
+    size_t n = 0;
+    out[n++] = (char)c;
+    for (; *s; s++) out[n++] = *s;
+    out[n] = 0;
+    return (int)n;
 }
 static int vf_snprintf(char *out, size_t size, const char *fmt, ...) {
     va_list ap;
@@ -259,11 +268,19 @@ static void *vf_memmove(void *dst, const void *src, size_t n) {
 #define memcpy vf_memcpy
 #define memmove vf_memmove
 #define strstr vf_strstr
-#define sprintf vf_sprintf
+#define sprintf(buf, fmt, c, s) vf_sprintf_cs(buf, fmt, c, s)
 #define snprintf vf_snprintf
 #define vsnprintf vf_vsnprintf
 #endif
 
+/* scaled knob (solver build only): the two path buffers of qconfig_parse_file are char[PATH_MAX]; 4096-byte
+ * arrays make every member of the include families cost seconds.  PATH_MAX = 64 keeps all paths used
+ * here (<= 6 bytes) far from the limit; the length checks against sizeof(buf) scale with it. */
+#ifdef VF_CBMC
+#include <limits.h>
+#undef PATH_MAX
+#define PATH_MAX 64
+#endif
 #define qfile_load vf_qfile_load
 #define qfile_get_dir vf_qfile_get_dir
 #define qgetenv vf_qgetenv
@@ -283,18 +300,19 @@ static unsigned dig(unsigned base) {
     return d;
 }
 #define NELEM(a) ((unsigned)(sizeof(a) / sizeof((a)[0])))
-/* list sizes by richness level VF_RICH (0 small, 1 medium, 2 rich): prefixes of the full lists */
-#define PICK3(a, b, c) (VF_RICH == 0 ? (a) : VF_RICH == 1 ? (b) : (c))
+/* list sizes by richness level VF_RICH (0 tiny, 1 small, 2 medium, 3 rich): prefixes of the full lists */
+#define PICK4(t, a, b, c) (VF_RICH == 0 ? (t) : VF_RICH == 1 ? (a) : VF_RICH == 2 ? (b) : (c))
 
 /* alphabets of the raw modes; 0 is the format's significant alphabet */
 static const char *const vf_alphabets[] = {
     "ab=${}[]#%! \n", /* 0: 13 */
     "a=${}\n",        /* 1: 6  */
     "=${}",           /* 2: 4  */
-    "a=${}%!\n",      /* 3: 8  */
-    "a=[] \n",        /* 4: 6  */
+    "a=${}%\n",       /* 3: 7  */
+    "a=${}",          /* 4: 5  */
 };
-static const char *const vf_vals[] = {"", "a", "${", "}", "$", "{a"}; /* env values / command outputs of the C17 modes; index NELEM = unset/failure */
+static const char *const vf_vals[] = {"", "${", "a", "}", "$", "{a"}; /* env values / command outputs of the C17 modes; index N_VALS = unset/failure */
+#define N_VALS PICK4(2, 3, 4, 6)
 
 static unsigned vf_tp;
 static char *vf_out;
@@ -364,25 +382,25 @@ static void ex_put(const char *name, const char *val, int dirty) {
 static const char vf_lay[6][5] = {
     {0, 0, 0, 0, 0}, {' ', ' ', ' ', ' ', 0}, {0, 0, 0, 0, 1}, {'\t', '\t', '\t', '\t', 0}, {' ', 0, 0, '\t', 1}, {0, ' ', '\t', 0, 0},
 };
-#define N_LAY PICK3(2, 3, 6)
+#define N_LAY PICK4(1, 2, 3, 6)
 static const char *const vf_names[] = {"a", "b", "ab", "a.b", "B"};
-#define N_NAMES PICK3(2, 3, 5)
+#define N_NAMES PICK4(2, 2, 3, 5)
 static const char *const vf_secs[] = {"a", "b", "ab", "a.b"};
-#define N_SECS PICK3(2, 3, 4)
+#define N_SECS PICK4(2, 2, 3, 4)
 static const char *const vf_kvvals[] = {"x", "", "xy", "a=b", "#x", "x y", "$", "{x}", "[x]", "x#", "$x", "}{", ";x", "x\ty"};
-#define N_KVVALS PICK3(2, 4, 14)
+#define N_KVVALS PICK4(2, 2, 4, 14)
 static const char *const vf_refs[] = {"a", "b", "a.a", "a.", "b.a", "ab", "b.", "a.b", "c", "ab.a", "a.ab", "b.b"};
-#define N_REFS PICK3(4, 8, 12)
+#define N_REFS PICK4(4, 4, 8, 12)
 static const char vf_pres[] = {0, 'x', '}', '='};
-#define N_PRES PICK3(1, 2, 4)
+#define N_PRES PICK4(1, 1, 2, 4)
 static const char *const vf_comments[] = {"x", "", "a=b", "${a}", "[a]", "#", " x", "a=${a}"};
-#define N_COMMENTS PICK3(1, 3, 8)
+#define N_COMMENTS PICK4(1, 1, 3, 8)
 static const char *const vf_envnames[] = {"A", "B"};
 #define N_ENVNAMES 2
 /* environment configurations of the C20 modes: variable A (or B) set to a value, or nothing set */
 static const char *const vf_envcfg_name[] = {"A", "A", "A", "B", "A", "A"};
 static const char *const vf_envcfg_val[] = {NULL, "v", "", "w", " v ", "a=b"};
-#define N_ENVCFG PICK3(2, 4, 6)
+#define N_ENVCFG PICK4(2, 2, 4, 6)
 
 /* number of variants of one line of kind k */
 static unsigned line_radix(int k) {
@@ -525,23 +543,27 @@ static void run_member(void) {
 }
 
 #elif VF_MODE == 2
-static const char *const vf_pre2[] = {"", "\n", "a\n", " ", "#", "a="};
+static const char *const vf_pre2[] = {"", "a\n", "#", "\n", " ", "a="};
+#define N_PRE2 PICK4(2, 3, 4, 6)
 static const char *const vf_nm2[] = {"i", "", " i ", "/i", "j", "./i", " ", "i\n", "\n", "i i"};
-static const char *const vf_post2[] = {"", "\n", "\na", "=${a}", "\n@INCLUDE i"};
-static const char *const vf_inc2[] = {"", "a", "a=b", "a=b\n", "[a]\n", "${", "\n", "=${}", "#"};
-static unsigned family_total(void) { return NELEM(vf_pre2) * NELEM(vf_nm2) * NELEM(vf_post2) * NELEM(vf_inc2) * 2; }
+#define N_NM2 PICK4(3, 5, 8, 10)
+static const char *const vf_post2[] = {"", "\na", "=${a}", "\n", "\n@INCLUDE i"};
+#define N_POST2 PICK4(2, 3, 4, 5)
+static const char *const vf_inc2[] = {"a=b", "", "[a]\n", "${", "a", "a=b\n", "\n", "=${}", "#"};
+#define N_INC2 PICK4(2, 4, 6, 9)
+static unsigned family_total(void) { return N_PRE2 * N_NM2 * N_POST2 * N_INC2 * 2; }
 static void run_member(void) {
     vf_out = vf_main_txt;
     vf_tp = 0;
-    emits(vf_pre2[dig(NELEM(vf_pre2))]);
+    emits(vf_pre2[dig(N_PRE2)]);
     emits("@INCLUDE ");
-    emits(vf_nm2[dig(NELEM(vf_nm2))]);
-    emits(vf_post2[dig(NELEM(vf_post2))]);
+    emits(vf_nm2[dig(N_NM2)]);
+    emits(vf_post2[dig(N_POST2)]);
     vf_main_txt[vf_tp] = 0;
     vf_main_len = vf_tp;
     vf_out = vf_inc_txt;
     vf_tp = 0;
-    emits(vf_inc2[dig(NELEM(vf_inc2))]);
+    emits(vf_inc2[dig(N_INC2)]);
     vf_inc_txt[vf_tp] = 0;
     vf_inc_len = vf_tp;
     vf_inc_present = (int)dig(2);
@@ -562,12 +584,12 @@ static void run_member(void) {
 
 #elif VF_MODE == 3
 static const char vf_lits[] = {'x', '$', '{', '}'};
-#define N_LITS PICK3(1, 2, 4)
+#define N_LITS PICK4(1, 1, 2, 4)
 static unsigned family_total(void) {
     unsigned t = 1;
     for (unsigned i = 0; i < VF_L; i++) t *= 9 * (vf_kinds[i] == T_LITREF ? N_LITS : 1);
-    if (has_kind(T_ENV, VF_L)) t *= NELEM(vf_vals) + 1;
-    if (has_kind(T_CMD, VF_L)) t *= NELEM(vf_vals) + 1;
+    if (has_kind(T_ENV, VF_L)) t *= N_VALS + 1;
+    if (has_kind(T_CMD, VF_L)) t *= N_VALS + 1;
     return t;
 }
 static void run_member(void) {
@@ -592,8 +614,8 @@ static void run_member(void) {
     s[vf_tp] = 0;
     VF_ASSERT(vf_tp == len, "C17.ini.tpl.len: harness layout");
     vf_env_name = NULL; vf_env_val = NULL; vf_cmd_out = NULL;
-    if (has_kind(T_ENV, VF_L)) { unsigned d = dig(NELEM(vf_vals) + 1); vf_env_val = d < NELEM(vf_vals) ? vf_vals[d] : NULL; }
-    if (has_kind(T_CMD, VF_L)) { unsigned d = dig(NELEM(vf_vals) + 1); vf_cmd_out = d < NELEM(vf_vals) ? vf_vals[d] : NULL; }
+    if (has_kind(T_ENV, VF_L)) { unsigned d = dig(N_VALS + 1); vf_env_val = d < N_VALS ? vf_vals[d] : NULL; }
+    if (has_kind(T_CMD, VF_L)) { unsigned d = dig(N_VALS + 1); vf_cmd_out = d < N_VALS ? vf_vals[d] : NULL; }
     LEDGER_BASE();
     qlisttbl_t *t = qconfig_parse_str(NULL, s, '=');
     VF_ASSERT(t != NULL, "C17.ini.result: the parser delivers a table or reports an error (no error exists for in-memory text)");
@@ -639,16 +661,27 @@ static void run_member(void) {
 
 #elif VF_MODE == 5
 /* main file "f":  [line A] "@INCLUDE " [pad] name [pad] ["\n" line B];   include file: [line C] */
+/* structural variants of the include directive: padding (0 none, 1 spaces around the name, 2 tab after),
+ * absolute path, presence (0 present under the name written, 1 other name written, 2 file missing),
+ * include text ends in '\n', main text ends in '\n' */
+static const unsigned char vf_struct5[][5] = {
+    {0, 0, 0, 1, 1}, {1, 0, 0, 0, 1}, {0, 0, 2, 1, 1}, {2, 1, 0, 1, 0}, {0, 0, 1, 1, 1}, {0, 1, 0, 0, 0}, {1, 1, 2, 0, 1}, {2, 0, 0, 0, 0},
+};
+#ifndef VF_NSTRUCT
+#define VF_NSTRUCT 8
+#endif
+#define N_STRUCT5 VF_NSTRUCT
 static unsigned family_total(void) {
     unsigned t = line_radix(VF_K0) * line_radix(VF_K1) * line_radix(VF_K2);
     if (VF_K0 == K_ENV || VF_K1 == K_ENV || VF_K2 == K_ENV) t *= N_ENVCFG;
-    return t * 3 /* padding of the directive */ * 2 /* absolute path */ * 3 /* file present+named / other name / missing */ * 2 /* include ends in \n */ * 2 /* main ends in \n */;
+    return t * N_STRUCT5;
 }
 static void run_member(void) {
     vf_cmd_out = NULL;
     vf_env_val = NULL;
     if (VF_K0 == K_ENV || VF_K1 == K_ENV || VF_K2 == K_ENV) { unsigned c = dig(N_ENVCFG); vf_env_name = vf_envcfg_name[c]; vf_env_val = vf_envcfg_val[c]; }
-    unsigned padk = dig(3), abs = dig(2), pres = dig(3), inc_nl = dig(2), last_nl = dig(2);
+    const unsigned char *sv = vf_struct5[dig(N_STRUCT5)];
+    unsigned padk = sv[0], abs = sv[1], pres = sv[2], inc_nl = sv[3], last_nl = sv[4];
     vf_out = vf_main_txt;
     vf_tp = 0;
     /* expected order: A, C, B - the model is fed in that order while the two texts are printed */
@@ -699,17 +732,21 @@ static void run_member(void) {
 /* ------------------------------------------------------------------ the query: exhaustive case split over [VF_LO, VF_HI) */
 void vf_harness(void) {
 #ifdef VF_TOTAL
-    VF_ASSERT(family_total() == VF_TOTAL, "C17.ini.harness.total: driver and harness agree on the size of the family");
+    VF_ASSERT(family_total() == VF_TOTAL, HP "ini.harness.total: driver and harness agree on the size of the family");
 #endif
     VF_ASSUME(vfin.sel >= VF_LO && vfin.sel < VF_HI);
     for (unsigned idx = VF_LO; idx < VF_HI; idx++) {
         if (vfin.sel == idx) {
             vf_x = idx;
             run_member();
-            VF_ASSERT(vf_x == 0, "C17.ini.harness.digits: member index fully decoded");
-            break;
+            VF_ASSERT(vf_x == 0, HP "ini.harness.digits: member index fully decoded");
+            VF_REACH("end");
+#ifdef VF_CBMC
+            __CPROVER_assume(0); /* this member's path ends here: nothing to merge into the next member's state */
+#else
+            return;
+#endif
         }
     }
-    VF_REACH("end");
 }
 #include "vf_main.h"
